@@ -23,6 +23,11 @@ TEMPLATES = {
 "unresolved_name_with_equally_close_globals": "scale_x :: 1\nscale_y :: 2\nscale_z :: 3\nstart :: fn do\n    v := 4\n    pr(scale_w + v)\nend\n",
 "enum_case_missing_variants": "En :: enum\n    P,\n    Q,\n    R,\n    S,\nend\nstart :: fn do\n    e := En.P\n    case e do\n        P -> pr(1) end\n    end\nend\n",
 "multi_file_duplicate_names": None,
+# constrained type variables of a function type: several bad constraints, unused variables, and a valid one
+"function_type_two_unknown_constraints": "fc: fn<a: Blargh, b: Flurb, c: Zork> *a, *b, *c -> void : external\nstart :: fn do\n    pr(1)\nend\n",
+"function_type_bad_constraint_arity_and_unknown": "gc: fn<a: Num x, b: Flurb> *a, *b -> *a : external\nstart :: fn do\n    pr(1)\nend\n",
+"function_type_unused_and_unknown_constraint_variables": "hc: fn<a: Blargh, b: Num, c: Flurb> *a -> *a : external\nstart :: fn do\n    pr(1)\nend\n",
+"function_type_valid_constraints": "hh :: fn a: *A, b: *B -> *A do\n    a\nend\nkc: fn<A: Num, B: CmpEqu> *A, *B -> *A : hh\nstart :: fn do\n    pr(kc(1, \"x\"))\nend\n",
 # several independent errors in fields / variants written on ONE line (the one-line form of small blobs and enums)
 "blob_unresolved_field_types_same_line": "A :: blob { x: Foo, y: Bar, z: Baz }\nstart :: fn do\n    pr(1)\nend\n",
 "enum_unresolved_variant_types_same_line": "En :: enum P Foo, Q Bar, R Baz end\nstart :: fn do\n    pr(1)\nend\n",
